@@ -5,7 +5,7 @@ PROPERTY = 'C11'
 LEVEL = 'exploration'
 RULE = ('generated layouts: 4-10 objects with unique random contents stored loose / packed plain / packed compressed / in both forms over '
         'one or several packs, optionally with stray duplicates/<key>.<uuid> files produced by the library\'s own branch (PermissionError '
-        'injected into os.replace); delete_objects(S) for S in {some, one, all, none, present+absent, repeated keys, only absent}; oracle: '
+        'injected into os.replace); delete_objects(S) (with _IN_SQL_MAX_LENGTH shadowed to 1-3 on half of the handles, so that a few keys span several SQL batches) for S in {some, one, all, none, present+absent, repeated keys, only absent}; oracle: '
         'returned set = S intersect present, every view on the same and on a fresh handle = model, no loose file / index row / duplicate '
         'of a deleted key left, rows and loose files of other objects unchanged; then repack(mode in KEEP/YES/NO/AUTO): every pack is '
         'exactly the tiling by its live rows, packs without live rows are gone, the plain and stored bytes of deleted objects occur in no '
@@ -16,7 +16,8 @@ TECHNIQUE = 'runtime monitoring: generated layouts x subset classes x repack mod
 
 def run(ctx):
     for c in ('deletes', 'form:loose', 'form:packed', 'form:both', 'subset:mixed-absent', 'subset:repeated', 'subset:all', 'subset:none',
-              'stray-duplicates-created', 'repack:keep', 'repack:yes', 'deleted-bytes-searches', 'hole-free-packs-under-keep'):
+              'stray-duplicates-created', 'repack:keep', 'repack:yes', 'deleted-bytes-searches', 'hole-free-packs-under-keep',
+              'deletes-spanning-several-sql-batches'):
         ctx.require(c)
     n = ctx.pick(320, 6000)
     per = 16
